@@ -234,6 +234,10 @@ class EditMedia(HTMLHandlerBase):
     @csrf_token_required(service='files', next_url=next_url)
     def post(self, spk: int, mfid: int) -> flask.Response:
         mf = current_media_file
+        if mf.blob is None:
+            # deleted by a request that was served at the same time
+            return flask.make_response(
+                f'{html.escape(mf.name)} has been deleted', 404)
         if mf.representation is None:
             return flask.make_response(
                 f'{html.escape(mf.name)} needs to be indexed before it can be edited', 400)
